@@ -572,7 +572,7 @@ func (P *Program) callMods(c *ssa.CallCommon) (map[string]bool, []*ssa.Function)
 		out[ModStar] = true
 		return out, nil
 	}
-	if fc := P.contractFor(FuncKey(callee)); fc != nil && fc.Trusted {
+	if fc := P.contractFor(FuncKey(callee)); fc != nil && (fc.Trusted || fc.Pure) {
 		P.contractMods(fc, c, out)
 		return out, nil
 	}
